@@ -924,12 +924,26 @@ func parseEvents(args []string) error {
 			}
 			for i, in := range g.Inputs {
 				sb.Reset()
-				er := "?"
+				er, part := "?", "?"
 				func() {
 					defer func() { _ = recover() }()
 					raw, lerr := b.p.Lex("fn", strings.NewReader(in.S))
-					_, perr := b.p.ParseString("fn", in.S, participle.AllowTrailing(b.trailing))
+					ast, perr := b.p.ParseString("fn", in.S, participle.AllowTrailing(b.trailing))
 					er = errorKey(perr, lerr, raw)
+					// the partial AST handed back next to a parse error, in canonical form (Z: the root value is the zero value)
+					if perr != nil && lerr == nil && ast != nil {
+						toks := map[lexer.Position]int{}
+						for ti, t := range raw {
+							toks[t.Pos] = ti + 1
+						}
+						psb := &strings.Builder{}
+						b.names[reflect.TypeOf(DynRoot{})] = "DynRoot"
+						canon(b.names, reflect.ValueOf(ast).Elem(), toks, psb)
+						part = "N:" + psb.String()
+						if reflect.ValueOf(ast).Elem().IsZero() {
+							part = "Z:" + psb.String()
+						}
+					}
 				}()
 				evs := sb.String()
 				// the node-level trace of the same parse (participle.Trace), once-groups dropped and depths re-based
@@ -942,7 +956,7 @@ func parseEvents(args []string) error {
 					}()
 					_, _ = b.p.ParseString("fn", in.S, participle.AllowTrailing(b.trailing), participle.Trace(&buf))
 				}()
-				fmt.Fprintf(w, "%s\t%d\t%d\t%s\t%s\t%s\n", g.ID, k, i, evs, er, tr)
+				fmt.Fprintf(w, "%s\t%d\t%d\t%s\t%s\t%s\t%s\n", g.ID, k, i, evs, er, tr, part)
 			}
 		}
 	}
